@@ -1,7 +1,7 @@
 SPEC = dict(
     id="C26",
     bin="c26",
-    cases_quick=4000,
+    cases_quick=3000,
     cases_thorough=200000,
     level="proof",
     technique="Coq theorems over a branch-by-branch Gallina model of Decimal::try_from_price / to_unit_price / with_unit_price, find_divisor_decimals / convert_to_u128_storage and the Pyth conversions (all u128 prices, all u8 decimals) + differential correspondence with the Rust functions evaluated inside Coq + exact-truncation oracle on the Rust outputs",
